@@ -69,6 +69,11 @@ def run(tier, seed):
                     continue
                 ts = par.view.time + 120
                 cb = chaingen.coinbase(par.height + 1, env.subsidy(par.height + 1) + fees, keys.pks[0], b'c06')
+                if done == 1:
+                    # a reward transaction WITHOUT outputs and nothing else: the encoding ends in a zero count
+                    txs, fees = [], 0
+                    cb = chaingen.coinbase(par.height + 1, 0, keys.pks[0], b'c06')
+                    cb.outputs = []
                 blk = chaingen.assemble(env, par, [cb] + txs, ts)
                 bs = blk.serialize()
                 v0, _ = consensus_check.impl_verdict(cs, blk, ts)
